@@ -102,7 +102,7 @@ def visitedSlots (ct : CT) (flags : Arr Nat) (numTotal : Nat) : Option (List Nat
   let idx := Arr.ofList ct.index
   let ov ← (List.range nOv).mapM (fun i => do
     let j ← idx.read i
-    if j = 255 then pure none
+    if j = Gen.C17.compressedSkip then pure none
     else do
       let f ← flags.read (ct.firstOverload + i)
       pure (if isInherited f then none else some j))
@@ -258,6 +258,7 @@ structure BinFile where
   includes : List String
   name : String
   inherits : List String       -- names as written: "dir/file.c"
+  intact : Bool := true        -- the trailing checksum matches the bytes before it
   deriving Repr, BEq, Inhabited
 
 /-- "<SaveBinaryDir>/<name>" with the last character replaced by 'b' -/
@@ -337,7 +338,8 @@ def driverId : Nat := Gen.C17.driverId
 def loadBinary (w : World) (name : String) : Decision :=
   match w.mtime (binPath w name), w.bins.lookup (binPath w name) with
   | some mtime, some b =>
-    if checkTimes w mtime name ≤ 0 then .stale "source"
+    if !b.intact then .stale "damaged"
+    else if checkTimes w mtime name ≤ 0 then .stale "source"
     else if b.magic ≠ magicId then .stale "magic"
     else if b.driverId ≠ driverId then .stale "driver"
     else if b.configId ≠ w.configId then .stale "config"
